@@ -178,6 +178,8 @@ fn table() -> Vec<Entry> {
         e!("unistd::dup3", SYS_dup3, Id, Unit, || unit(u::dup3(fd_a(), fd_b(), true))),
         e!("unistd::fcntl_get_file_status", SYS_fcntl, Id, I32, || num(u::fcntl_get_file_status(fd_a()).map(|f| f.bits().value()))),
         e!("unistd::fcntl_set_file_status", SYS_fcntl, Zero, Unit, || unit(u::fcntl_set_file_status(fd_a(), OpenFlags::O_NONBLOCK))),
+        e!("unistd::fcntl_dupfd_cloexec", SYS_fcntl, Id, I32, || fdr(u::fcntl_dupfd_cloexec(fd_a(), fd_b()))),
+        e!("unistd::fcntl_set_cloexec", SYS_fcntl, Zero, Unit, || unit(u::fcntl_set_cloexec(fd_a(), true))),
         e!("unistd::get_dents", SYS_getdents64, Count, U64, || {
             let mut b = [0u8; 64];
             cnt(u::get_dents(fd_a(), &mut b))
